@@ -65,12 +65,18 @@ def build(sc: dict, lead: int = 0):
         # mapped to a second CVaR filter (the whole ensemble, on the first objective) that comes last in the list
         cfg["realization_filters"] = cfg["realization_filters"] + [{"method": "cvar-objective", "options": {"sort": [0], "percentile": 1.0}}]
         trailing = len(cfg["realization_filters"]) - 1
-        for sect in ("objectives", "nonlinear_constraints"):
-            if sect in cfg and "realization_filters" in cfg[sect] and -1 in cfg[sect]["realization_filters"]:
-                maps = list(cfg[sect]["realization_filters"])
-                maps[maps.index(-1)] = trailing
-                cfg[sect]["realization_filters"] = maps
-                break
+        if "nonlinear_constraints" in cfg:
+            # constraint flavours: the trailing filter serves the objective, and the first filter of the list becomes a
+            # constraint filter IN USE on the other constraint (the whole ensemble), which therefore runs before the judged one
+            cfg["objectives"] = {"weights": [1.0], "realization_filters": [trailing]}
+            cfg["realization_filters"][0] = {"method": "cvar-constraint", "options": {"sort": 0, "percentile": 1.0}}
+            maps = list(cfg["nonlinear_constraints"]["realization_filters"])
+            maps[0] = 0
+            cfg["nonlinear_constraints"]["realization_filters"] = maps
+        else:
+            maps = list(cfg["objectives"]["realization_filters"])
+            maps[maps.index(-1)] = trailing
+            cfg["objectives"]["realization_filters"] = maps
     return EnOptConfig.model_validate(cfg), objs, cons, failed, col
 
 
@@ -84,6 +90,23 @@ class _WarmTable(TableEvaluator):
     def __call__(self, variables, context):
         self.objs, self.cons = self._clean if not self.calls else self._table
         return super().__call__(variables, context)
+
+
+class _PertFail(TableEvaluator):
+    """The perturbed evaluations of the realizations of one parity fail (NaN); the unperturbed rows are the table."""
+
+    def __init__(self, objs, cons, parity):
+        super().__init__(objs, cons)
+        self.parity = parity
+
+    def __call__(self, variables, context):
+        res = super().__call__(variables, context)
+        if context.perturbations is not None:
+            bad = (context.perturbations >= 0) & (context.realizations % 2 == self.parity)
+            res.objectives[bad, :] = np.nan
+            if res.constraints is not None:
+                res.constraints[bad, :] = np.nan
+        return res
 
 
 def drive(sc: dict):
@@ -140,6 +163,22 @@ def drive(sc: dict):
         else:
             value = (r.functions.objectives if col[0] == "obj" else r.functions.constraints)[col[1]]
     trace.append({**base, "ev": "CVaR", "via": "e2e", "outcome": outcome, "second_use": True, "unused_filters_in_front": lead,
+                  "w": nums(w) if w is not None else [], "value": num(value)})
+    # -- one combined functions + gradient evaluation in which the perturbed evaluations of every other realization fail:
+    #    a realization whose FUNCTION evaluation succeeded stays a successful member for the filter and for the reported value
+    ev3 = _PertFail(o, c, parity=(sc["n"] + sc["k"]) % 2)
+    res, outcome = outcome_of(lambda: ensemble_evaluator(config, ev3).calculate(
+        np.zeros(2), compute_functions=True, compute_gradients=True))
+    w = value = None
+    if res is not None:
+        r = res[0]
+        rows = r.realizations.objective_weights if col[0] == "obj" else r.realizations.constraint_weights
+        w = None if rows is None else rows[col[1]]
+        if getattr(r, "functions", None) is None:
+            outcome = "nofunctions"
+        else:
+            value = (r.functions.objectives if col[0] == "obj" else r.functions.constraints)[col[1]]
+    trace.append({**base, "ev": "CVaR", "via": "e2e", "outcome": outcome, "combined_with_failing_perturbations": True,
                   "w": nums(w) if w is not None else [], "value": num(value)})
     nsucc = int((~failed).sum())
     kn = sc["k"] * nsucc
